@@ -574,6 +574,13 @@ class _Expr(SymEval):
             if f.attr == "full" and len(args) >= 2 and isinstance(args[1], (int, float)) and not isinstance(args[1], bool):
                 return np.full(args[0], float(args[1]) if kw.get("dtype") in (None, float) else args[1])
             PURE_NUMERIC = ("tril_indices", "triu_indices", "argsort", "sort", "unique", "arange", "cumsum", "where", "sum", "max", "min", "amax", "amin", "abs", "absolute", "sqrt", "prod", "any", "all", "nonzero", "argmax", "argmin", "diff", "lexsort", "searchsorted", "count_nonzero", "sign", "floor", "ceil", "ravel_multi_index", "unravel_index", "exp", "log")
+            if f.attr in ("argsort", "sort") and args and isinstance(args[0], np.ndarray) and args[0].dtype != object and args[0].ndim == 1 and kw.get("kind") not in ("stable", "mergesort") and len(np.unique(args[0])) < args[0].size:
+                # an unstable sort leaves the order of equal keys open: the model takes the legal outcome that differs
+                # from the stable one (equal keys in reverse order of appearance), so that code which relies on the
+                # order of ties shows
+                a_ = args[0]
+                order = np.array(sorted(range(a_.size), key=lambda i: (a_[i], -i)), dtype=int)
+                return order if f.attr == "argsort" else a_[order]
             if f.attr in PURE_NUMERIC and args and all(not isinstance(a, (Sym, Rec)) and not (isinstance(a, np.ndarray) and a.dtype == object) and not (isinstance(a, (list, tuple)) and any(isinstance(x, (Sym, Rec)) for x in a)) for a in args):
                 return _prog_call(getattr(np, f.attr), *args, **kw)
             if f.attr in ("repeat", "tile") and args:
